@@ -189,6 +189,12 @@ class Report:
     def harness_error(self, msg):
         self.harness_errors.append(msg)
 
+    def note_xsolver(self, rec):
+        """second-solver (cvc5) verdict on a sampled z3-unsat query; reported in evidence as queries 'cvc5:<verdict>'."""
+        xs = rec.get("xsolver") if isinstance(rec, dict) else None
+        if xs:
+            self.count_query("cvc5:" + xs.split(":")[0])
+
     def finish(self, floors=None):
         """Print verdict lines, write evidence, return exit code."""
         findings = Findings(self.prop)
